@@ -211,4 +211,51 @@ inductive IntParser where
   | unknown
 deriving DecidableEq, Repr, Inhabited
 
+/-- C11: an RPC of `service State` (api/v1alpha1/state.proto) -/
+inductive Rpc where
+  | get | list | create | update | destroy | teardown | teardownAndDestroy | watch | unknown
+deriving DecidableEq, Repr, Inhabited
+
+/-- C11: a `case` condition of a server handler's error switch (server/server.go):
+    `state.IsXError(err)`; `nonNil` is `case err != nil:` / `default:` (any remaining error) -/
+inductive ErrPred where
+  | isNotFound | isOwnerConflict | isPhaseConflict | isConflict | isInvalidBookmark | nonNil | unknown
+deriving DecidableEq, Repr, Inhabited
+
+/-- C11: a gRPC status code as far as the state service uses them. `unclassified` is what a
+    plain Go error returned by a handler travels as (codes.Unknown); `any` is the `default:`
+    arm of a client-side `switch status.Code(err)` -/
+inductive Code where
+  | notFound | permissionDenied | alreadyExists | invalidArgument | failedPrecondition | unimplemented
+  | unclassified | any | unknown
+deriving DecidableEq, Repr, Inhabited
+
+/-- C11: the class of the error the client adapter builds (marker methods of client/errors.go);
+    `other` = the status error returned as is; `fallback` = the Unimplemented arm of
+    Teardown / TeardownAndDestroy (store the sticky flag, run the fallback) -/
+inductive ErrClass where
+  | notFound | ownerConflict | phaseConflict | conflict | invalidBookmark | other | fallback | unknown
+deriving DecidableEq, Repr, Inhabited
+
+/-- C11: a nil-able (message-typed or `optional`) field of a request message -/
+inductive ReqField where
+  | options | resource | newResource | idQuery | id | unknown
+deriving DecidableEq, Repr, Inhabited
+
+/-- C11: a metadata field `updateResourceMetadata` (client.go) copies from the response into
+    the caller's object -/
+inductive WbField where
+  | version | updated | owner | created | phase | unknown
+deriving DecidableEq, Repr, Inhabited
+
+/-- C11: a `state.EventType` constant -/
+inductive EvT where
+  | created | updated | destroyed | bootstrapped | errored | noop | unknown
+deriving DecidableEq, Repr, Inhabited
+
+/-- C11: a `v1alpha1.EventType_*` wire constant -/
+inductive WireEv where
+  | created | updated | destroyed | bootstrapped | errored | noop | unknown
+deriving DecidableEq, Repr, Inhabited
+
 end Cosi.Gen
